@@ -7,6 +7,8 @@ from engine.dataflow import decl_of, PtrTaint
 from engine.facts import AnalysisBroken, render, strip
 from engine.polarity import result_tests
 from rules import common
+from engine.linear import Lin
+from rules.xeval import XEval, MSGLEN
 
 LEVEL = 'other'
 O_WRONLY, O_RDWR, O_CREAT, O_EXCL, O_TRUNC, O_APPEND = 0o1, 0o2, 0o100, 0o200, 0o1000, 0o2000
@@ -114,6 +116,8 @@ def run(ctx):
            '%d functions open log files for the file/devtty/devnull outputs' % len(named_writers),
            how='%d writer(s) in all: %s' % (len(writers), ', '.join(f.name for f, _ in writers.values())))
     for key, (W, opens) in writers.items():
+        if W not in outs:
+            XROOTS[W.key] = [XEval(prog, o) for o in outs if W in common.with_helpers(prog, o)]
         check_writer(ctx, W, opens, named=(key in named_writers))
 
 
@@ -140,9 +144,16 @@ def own_code(cg, out_func, f):
     return False
 
 
+XROOTS = {}
+
+
 def check_writer(ctx, W, opens, named=True):
     chk = ctx.chk
     msg_ids = {p['id'] for p in W.params[:1]}  # first parameter is the log message
+    xs = XROOTS.get(W.key, [])
+    if xs:
+        # W is a file-local helper of an output: its parameters are what the output hands in
+        msg_ids = set()
     for o in opens:
         n = o.get('callee')
         fds, streams = set(), set()
@@ -226,7 +237,8 @@ def check_writer(ctx, W, opens, named=True):
                        '(e.g. 10011 bytes -> write(8192) + write(1819)), and another process can append in between' % render(c))
             else:
                 ln = arg(c, 2)
-                dep = ln is not None and depends_on_strlen(W, ln, msg_ids)
+                dep = ln is not None and (depends_on_strlen(W, ln, msg_ids) or any(
+                    MSGLEN in (X.lin(W, ln) or Lin.const(0)).t for X in xs))
                 chk.ob('W2', 'write-covers-record[%s]' % W.name, dep, c.where(), W.name,
                        'the length argument %s of %s does not derive from the message length: the record is not '
                        'written as a whole' % (render(ln) if ln is not None else '?', render(c)),
@@ -235,7 +247,8 @@ def check_writer(ctx, W, opens, named=True):
                 # function assembled (not the message pointer itself, which lacks the newline)
                 buf = arg(c, 1)
                 pt = PtrTaint(W, lambda n: False, msg_ids)
-                chk.ob('W2', 'write-buffer-assembled[%s]' % W.name, buf is not None and not pt.is_derived(buf),
+                chk.ob('W2', 'write-buffer-assembled[%s]' % W.name, buf is not None and not pt.is_derived(buf) and
+                       not any(X.is_msg(W, buf) for X in xs),
                        c.where(), W.name,
                        '%s writes the message pointer itself: the newline needs a second write' % render(c),
                        how='%s is a buffer assembled by the writer (message + newline)' % render(buf))
